@@ -3,18 +3,18 @@ CONSTANTS Pkgs <- P2
  Gens <- GensAB
  Dep <- NoDep2
  Closure <- MCClosure
- Under <- UnderRoot2
- RootPkg = "p"
- HashCoversSum = TRUE
- SkipUnknown = FALSE
+ Under <- UnderSib2
+ RootPkg = "none"
+ HashCoversSum = FALSE
+ SkipUnknown = TRUE
  SaveAlways = TRUE
  KeepAfterDefers = TRUE
  BehChoices <- Beh2Small
- ArgsMenu <- Args2Quiet
- MaxRuns = 6
- MaxEnv = 0
+ ArgsMenu <- Args2
+ MaxRuns = 2
+ MaxEnv = 1
  MaxSrc = 1
- ConvergeBound = 4
+ ConvergeBound = 3
 SPECIFICATION Spec
 INVARIANT C07_InputsUntouched C07_NonSelectedUntouched C07_ExistsIffRendered C04_OutputIsFunctionOfInput
  C02_SumUntouchedOnFailure C02_CulpritFileUntouched C02_SumUntouchedWhileRunning FineRefinesMacro C08_SumAfterSuccess C08_Converges
